@@ -3,6 +3,7 @@
 package proxy
 
 import (
+	stdcontext "context"
 	"fmt"
 	"io"
 	"net/http"
@@ -51,6 +52,9 @@ type vfC08Flight struct {
 	enter   chan struct{} // one token per transport call made for this request
 	release chan vfC08Backend
 	done    chan vfC08Done
+
+	cancel    stdcontext.CancelFunc
+	cancelled bool // the request's context was cancelled (client went away) before / while it was served
 }
 
 func (fl *vfC08Flight) kind() string {
@@ -222,7 +226,7 @@ func TestVerifC08Proxy(t *testing.T) {
 		var hist []string
 		nextID := 0
 		failed := false
-		shortCircuits, streamShortCircuits, streamAdmitted, retried := 0, 0, 0, 0
+		shortCircuits, streamShortCircuits, streamAdmitted, retried, cancelledFinished := 0, 0, 0, 0, 0
 
 		log := func(format string, a ...interface{}) {
 			hist = append(hist, fmt.Sprintf("t=+%dns ", vfC08Now()-start)+fmt.Sprintf(format, a...))
@@ -236,16 +240,23 @@ func TestVerifC08Proxy(t *testing.T) {
 			for _, fl := range outstanding {
 				fl.release <- vfC08Backend{kind: "ok"}
 				<-fl.done
+				fl.cancel()
 			}
 		}()
 
-		startReq := func(stream bool) (*vfC08Flight, bool) {
+		startReq := func(stream, preCancelled bool) (*vfC08Flight, bool) {
 			fl := &vfC08Flight{id: nextID, stream: stream, enter: make(chan struct{}, 2*vfC08MaxAttempts+2),
 				release: make(chan vfC08Backend), done: make(chan vfC08Done, 1)}
 			nextID++
 			idStr := strconv.Itoa(fl.id)
 			vfC08Flights.Store(idStr, fl)
-			stdr, _ := http.NewRequest(http.MethodPost, "http://example.com/c08", strings.NewReader("request body of c08"))
+			cctx, cancel := stdcontext.WithCancel(stdcontext.Background())
+			fl.cancel = cancel
+			if preCancelled {
+				cancel()
+				fl.cancelled = true
+			}
+			stdr, _ := http.NewRequestWithContext(cctx, http.MethodPost, "http://example.com/c08", strings.NewReader("request body of c08"))
 			stdr.Header.Set("X-Vf-Id", idStr)
 			req, _ := httpprot.NewRequest(stdr)
 			// what HTTPServer does before handing the request to the pipeline: clientMaxBodySize -1 =
@@ -279,7 +290,7 @@ func TestVerifC08Proxy(t *testing.T) {
 			select {
 			case <-fl.enter:
 				got := vfC08StateName(stater.State())
-				log("%s request #%d -> reached the transport; breaker %s", fl.kind(), fl.id, got)
+				log("%s request #%d (context cancelled=%v) -> reached the transport; breaker %s", fl.kind(), fl.id, fl.cancelled, got)
 				if ok, want := tr.ObserveAcquire(fl.id, vfC08Now(), true, got); !ok {
 					outstanding = append(outstanding, fl)
 					report(fmt.Sprintf("proxy: %s request in model-state %s forwarded; breaker %s", fl.kind(), before, got),
@@ -291,6 +302,7 @@ func TestVerifC08Proxy(t *testing.T) {
 				}
 				return fl, true
 			case d := <-fl.done:
+				cancel()
 				got := vfC08StateName(stater.State())
 				calls := atomic.LoadInt64(&vfC08TransportCalls) - callsBefore
 				log("%s request #%d -> result=%q status=%d transportCalls=%d panicked=%v; breaker %s", fl.kind(), fl.id, d.result, d.status, calls, d.panicked, got)
@@ -345,9 +357,10 @@ func TestVerifC08Proxy(t *testing.T) {
 					break loop
 				}
 			}
+			fl.cancel()
 			got := vfC08StateName(stater.State())
 			calls := atomic.LoadInt64(&vfC08TransportCalls) - callsBefore
-			log("answer #%d (%s) last=%s attempts=%d -> result=%q status=%d; breaker %s", fl.id, fl.kind(), last.kind, attempts, d.result, d.status, got)
+			log("answer #%d (%s, context cancelled=%v) last=%s attempts=%d -> result=%q status=%d; breaker %s", fl.id, fl.kind(), fl.cancelled, last.kind, attempts, d.result, d.status, got)
 			if attempts > 1 {
 				retried++
 			}
@@ -358,6 +371,13 @@ func TestVerifC08Proxy(t *testing.T) {
 			case "neterr":
 				wantResult, wantStatus = resultServerError, 503
 			}
+			if fl.cancelled {
+				cancelledFinished++
+				if last.kind == "neterr" && d.result == resultClientError && d.status == 499 {
+					// a send error on a cancelled request may be blamed on the client (not C08's business)
+					wantResult, wantStatus = resultClientError, 499
+				}
+			}
 			if d.panicked || d.result != wantResult || d.status != wantStatus || calls != int64(attempts-1) {
 				report(fmt.Sprintf("proxy: admitted %s request answered %s gives result=%q status=%d", fl.kind(), last.kind, d.result, d.status),
 					"want result %q status %d, %d further transport calls (got %d), no panic (got %v)", wantResult, wantStatus, attempts-1, calls, d.panicVal)
@@ -367,8 +387,12 @@ func TestVerifC08Proxy(t *testing.T) {
 				report("proxy: request sent more than once by a pool without retry policy", "%d transport calls", attempts)
 				return
 			}
-			if ok, want := tr.ObserveRecord(fl.id, last.kind != "ok", 0, vfC08Now(), got); !ok {
-				report(fmt.Sprintf("proxy: %s request answered %s in model-state %s: breaker %s", fl.kind(), last.kind, before, got),
+			what := last.kind
+			if fl.cancelled {
+				what += " after cancellation"
+			}
+			if ok, want := tr.ObserveRecordX(fl.id, last.kind != "ok", fl.cancelled, 0, vfC08Now(), got); !ok {
+				report(fmt.Sprintf("proxy: %s request answered %s in model-state %s: breaker %s", fl.kind(), what, before, got),
 					"after the answer the breaker is %s; the contract allows: %s", got, want)
 			}
 		}
@@ -386,21 +410,40 @@ func TestVerifC08Proxy(t *testing.T) {
 			}
 			return out
 		}
+		genPre := func(rt *rapid.T) bool { return rapid.IntRange(0, 9).Draw(rt, "preCancelled") == 0 }
 		genStream := func(rt *rapid.T) bool { return rapid.IntRange(0, 99).Draw(rt, "stream") < streamPct }
 		actStart := func(rt *rapid.T) {
 			if failed {
 				return
 			}
-			if fl, ok := startReq(genStream(rt)); ok {
+			if fl, ok := startReq(genStream(rt), genPre(rt)); ok {
 				outstanding = append(outstanding, fl)
 			}
+		}
+		actCancel := func(rt *rapid.T) {
+			if failed {
+				return
+			}
+			var live []*vfC08Flight
+			for _, fl := range outstanding {
+				if !fl.cancelled {
+					live = append(live, fl)
+				}
+			}
+			if len(live) == 0 {
+				rt.Skip()
+			}
+			fl := live[rapid.IntRange(0, len(live)-1).Draw(rt, "whichCancel")]
+			fl.cancel()
+			fl.cancelled = true
+			log("cancel the context of request #%d", fl.id)
 		}
 		actCall := func(rt *rapid.T) {
 			if failed {
 				return
 			}
 			b := genAnswers(rt)
-			if fl, ok := startReq(genStream(rt)); ok {
+			if fl, ok := startReq(genStream(rt), genPre(rt)); ok {
 				finish(fl, b)
 			}
 		}
@@ -434,6 +477,7 @@ func TestVerifC08Proxy(t *testing.T) {
 			"call1":  actCall, "call2": actCall, "call3": actCall, "call4": actCall,
 			"finish1": actFinish, "finish2": actFinish,
 			"advance1": actAdvance, "advance2": actAdvance,
+			"cancel1": actCancel,
 		})
 		if failed {
 			return
@@ -450,6 +494,9 @@ func TestVerifC08Proxy(t *testing.T) {
 		}
 		if streamAdmitted > 0 {
 			vf.Class("proxy: history-with-admitted-stream-request")
+		}
+		if cancelledFinished > 0 {
+			vf.Class("proxy: history-with-request-finished-after-cancellation")
 		}
 		if retried > 0 {
 			vf.Class("proxy: history-with-retried-request")
